@@ -205,6 +205,20 @@ void body(vf::Ctx & c)
       }
     }
     for (size_t d = 0; d < D; ++d) {ax[d] = genAxis<S>(c, res, cap[d]);}
+    if (shape == 0 && c.s.flag("congruent_axes", 1, 4)) {
+      // all axes get the extent of the first one shifted by a few cells (equal widths, hence mostly equal cell counts,
+      // lower bounds that differ only slightly relative to their magnitude): "identical axes" shortcuts must not
+      // mistake them for identical
+      for (size_t d = 1; d < D; ++d) {
+        double shift = static_cast<double>(c.s.i("congruent_shift_cells_x4", -12, 12)) * 0.25 * res;
+        double lo = rnd<S>(ax[0].lo + shift), hi = rnd<S>(ax[0].hi + shift);
+        if (lo >= -BOUND && hi <= BOUND && lo <= hi) {
+          ax[d] = ax[0];
+          ax[d].lo = lo; ax[d].hi = hi; ax[d].multiple = false; ax[d].half = false;
+        }
+      }
+      c.label("congruent-axes(shifted-by-a-few-cells)");
+    }
     c.label("ctor-interval");
   }
   double total = 1, longest = 0;
@@ -278,6 +292,8 @@ void body(vf::Ctx & c)
   c.labelIf(anyCorner, "point-on-extent-corner");
   c.labelIf(anyCellCorner, "point-on-cell-corner");
   c.nontrivial(nonIntegerRes || anyBorder || anyBound);
+  const int madeBy = static_cast<int>(c.s.pick("mapping_made_by", {3, 1, 1}));   // directly / copy constructed / copy assigned
+  if (madeBy != 0) {c.label("mapping-is-a-copy(source-reassigned-and-destroyed)");}
   c.commit();
 
   // ------------------------------------------------------------------ library under test
@@ -288,6 +304,19 @@ void body(vf::Ctx & c)
     Pt lo, hi;
     for (size_t d = 0; d < D; ++d) {lo[d] = static_cast<S>(ax[d].lo); hi[d] = static_cast<S>(ax[d].hi);}
     mp.reset(new Map(romea::core::Interval<S, D>(lo, hi), static_cast<S>(res)));
+  }
+  if (madeBy != 0) {
+    // value semantics: the mapping under test is a copy; its source is then re-assigned to another grid and destroyed,
+    // so anything the copy still shares with it shows
+    std::unique_ptr<Map> source(std::move(mp));
+    if (madeBy == 1) {
+      mp.reset(new Map(*source));
+    } else {
+      mp.reset(new Map(static_cast<S>(3), static_cast<S>(1)));
+      *mp = *source;
+    }
+    *source = Map(static_cast<S>(7), static_cast<S>(0.5));
+    source.reset();
   }
   const Map & m = *mp;
   c.check(static_cast<double>(m.getCellResolution()) == res, "getCellResolution() differs from the resolution given");
